@@ -124,14 +124,21 @@ func canon(s []span) ([]span, error) {
 			next := s[j]
 			if !this.max.equal(next.min) { // If equal, we can merge unless both are open (handled below)
 				if len(this.max.pre) == 0 {
-					maxPlusOne := this.max.copy()
-					err := maxPlusOne.inc()
-					if err != nil {
-						return nil, err
-					}
-					if maxPlusOne.lessThan(next.min) {
-						// There is a gap; cannot merge.
-						break
+					if this.maxOpen || next.minOpen {
+						// An excluded end is bridged only by overlap, not by adjacency.
+						if this.max.lessThan(next.min) {
+							break
+						}
+					} else {
+						maxPlusOne := this.max.copy()
+						err := maxPlusOne.inc()
+						if err != nil {
+							return nil, err
+						}
+						if maxPlusOne.lessThan(next.min) {
+							// There is a gap; cannot merge.
+							break
+						}
 					}
 				} else {
 					continue // Too difficult for now, but may be covered by another span. TODO?
